@@ -502,4 +502,25 @@ Proof.
   destruct (display_of_is_string T Hdisp c q u Ec) as (s & Hs). rewrite Hs. eauto.
 Qed.
 
+(* math.floor / ceil / trunc / round of a quantity act on its DISPLAY value and keep the unit: the result is
+   the quantity whose display value is the rounded display value (whatever the four roundings are) *)
+Theorem round_on_display_value : forall (X : mathops N) k c q a u f n d dv r,
+  get_class T c = Some q -> glookup u (qc_units q) = Some (GFac f n d) -> n <> 0%Z ->
+  displayvalue N M (VNamed c a u) = Val dv -> round_with X k dv = Val r ->
+  q_round N M X k c a u = Val (VNamed c (fmul N r (ffac N f n d)) u) /\
+  displayvalue N M (VNamed c (fmul N r (ffac N f n d)) u) = Val r.
+Proof.
+  intros X k c q a u f n d dv r Hc Hu Hn Hd Hr. unfold q_round. rewrite Hd, Hr. split.
+  - eapply mk_stores_value_times_factor; eauto.
+  - eapply displayvalue_of_mk; eauto.
+Qed.
+
+Theorem round_refusal_propagates : forall (X : mathops N) k c a u dv e,
+  displayvalue N M (VNamed c a u) = Val dv -> round_with X k dv = Raise e -> q_round N M X k c a u = Raise e.
+Proof. intros X k c a u dv e Hd Hr. unfold q_round. rewrite Hd, Hr. reflexivity. Qed.
+
+Theorem si_round_keeps_signature : forall (X : mathops N) k sg a r,
+  round_with X k a = Val r -> si_round N X k sg a = Val (VSI sg r).
+Proof. intros X k sg a r Hr. unfold si_round. rewrite Hr. reflexivity. Qed.
+
 End Proofs.
